@@ -23,20 +23,30 @@ def gen_cases(rng, tier):
         form = rng.choice(['pure', 'pure', 'inplace', 'reflected'])
         if other == 'bitarray' and form == 'reflected': form = 'pure'   # bitarray.__and__(Bits) raises TypeError itself: not bitstring's behaviour
         yield {'op': rng.choice(OPS), 'cls': rng.choice(CLASSES), 'a': a, 'b': a if other == 'self' else b, 'other': other,
-               'form': form, 'pos': rng.choice([None, 0, l // 2, l])}
-        yield {'op': 'invert', 'cls': rng.choice(CLASSES), 'a': a}
+               'form': form, 'pos': rng.choice([None, 0, l // 2, l]), 'lsb0': rng.random() < 0.3}
+        yield {'op': 'invert', 'cls': rng.choice(CLASSES), 'a': a, 'lsb0': rng.random() < 0.3}
         n = rng.choice([-3, -1, 0, 1, 2, 7, 8, l - 1, l, l + 1, 2 * l + 3, rng.randrange(0, l + 2), 1 << 70])
         yield {'op': rng.choice(['lshift', 'rshift']), 'cls': rng.choice(CLASSES), 'a': a, 'n': n, 'form': rng.choice(['pure', 'inplace']),
-               'pos': rng.choice([None, 0, l // 2, l])}
+               'pos': rng.choice([None, 0, l // 2, l]), 'lsb0': rng.random() < 0.4}
     for l in range(0, 4):
         for v in range(1 << l):
             a = format(v, f'0{l}b') if l else ''
             for n in range(-1, l + 3):
                 for op in ('lshift', 'rshift'):
                     yield {'op': op, 'cls': 'BitArray', 'a': a, 'n': n, 'form': 'pure'}
+                    yield {'op': op, 'cls': 'BitArray', 'a': a, 'n': n, 'form': 'inplace', 'lsb0': True}
 
 def kind(c):
     return c['op'] + ':' + c.get('form', '')
+
+def under_mode(c, f):
+    """run f with options.lsb0 as the case says (operands are built under msb0): the operators and shifts do not depend on the mode"""
+    def g():
+        import bitstring
+        bitstring.options.lsb0 = c.get('lsb0', False)
+        try: return f()
+        finally: bitstring.options.lsb0 = False
+    return g
 
 def run_impl(c):
     op = c['op']
@@ -54,12 +64,12 @@ def run_impl(c):
             r = PYOP[op](s, other) if c['form'] == 'pure' else PYOP[op](other, s)
             ob = other.bin if hasattr(other, 'bin') else None
             return [r.bin, type(r).__name__, s.bin, ob, r is s, getattr(s, 'pos', None), getattr(r, 'pos', None)]
-        return attempt(f)
+        return attempt(under_mode(c, f))
     if op == 'invert':
         def f():
             r = ~s
             return [r.bin, type(r).__name__, s.bin]
-        return attempt(f)
+        return attempt(under_mode(c, f))
     if op in ('lshift', 'rshift'):
         def f():
             if c['form'] == 'inplace':
@@ -70,7 +80,7 @@ def run_impl(c):
                 return [t.bin, type(t).__name__, None]
             r = (s << c['n']) if op == 'lshift' else (s >> c['n'])
             return [r.bin, type(r).__name__, s.bin]
-        return attempt(f)
+        return attempt(under_mode(c, f))
 
 def intop(op, a, b):
     x, y = int(a, 2), int(b, 2)
